@@ -229,9 +229,11 @@ func (e fsmEntry) render() string {
 	return fmt.Sprintf("%d %s %s", e.index, li, rCmd(e.seen))
 }
 
-func (in *fsmInst) update(out *Out, id int, es []fsmEntry) {
+func (in *fsmInst) update(out *Out, id int, es []fsmEntry) { in.updateAs(out, "upd", id, es) }
+
+func (in *fsmInst) updateAs(out *Out, verb string, id int, es []fsmEntry) {
 	var sb strings.Builder
-	fmt.Fprintf(&sb, "upd %d %d", id, len(es))
+	fmt.Fprintf(&sb, "%s %d %d", verb, id, len(es))
 	ents := make([]sm.Entry, len(es))
 	for i, e := range es {
 		sb.WriteString(" " + e.render())
@@ -755,5 +757,12 @@ func fsmSize(out *Out, r *rand.Rand) {
 		in.look(out, 0, q)
 		in.iterAll(out, 0, q)
 	}
+	in.indices(out, 0)
+	// a range delete over everything that asks for the previous pairs (known finding K2: only the first
+	// message's worth is reported when the range exceeds the message budget)
+	idx++
+	del := &regattapb.Command{Table: []byte("tab"), Type: regattapb.Command_DELETE, Kv: &regattapb.KeyValue{Key: []byte{0}}, RangeEnd: []byte{0}, PrevKvs: true, Count: r.Intn(2) == 0}
+	in.updateAs(out, "kf K2 upd", 0, []fsmEntry{mkEntry(idx, del)})
+	in.look(out, 0, fullRange())
 	in.indices(out, 0)
 }
